@@ -644,6 +644,25 @@ pub fn e3_dynspace(ctx: &Ctx, name: &str, st: &mut Local, f: Sink) {
                 });
             }
         }
+        // literal/length symbols 286 / 287 (HLIT 287, 288) carrying code lengths: never usable, rejected by zlib,
+        // accepted by a reader that takes the 5-bit HLIT at face value
+        if used_l.len() <= 5 {
+            for extra_syms in [vec![286usize], vec![287], vec![286, 287]] {
+                let mut syms = used_l.clone();
+                syms.extend(extra_syms.iter().copied());
+                for v in complete_vectors(syms.len(), maxl.min(5)) {
+                    let mut l2 = vec![0u8; syms.last().unwrap() + 1];
+                    for (k, &s) in syms.iter().enumerate() {
+                        l2[s] = v[k];
+                    }
+                    emit(st, &mut idx, true, &mut || {
+                        let mut c = dyn_case(toks, header_from_lengths(&l2, &dl), &plain, format!("list{} litlen-lengths {:?} over {:?} (symbols >= 286 coded)", li, v, syms))?;
+                        c.plain = None;
+                        Some(c)
+                    });
+                }
+            }
+        }
         for extra in 0..=2usize {
             // distance alphabets of 2, 3, 4 used symbols (extra unused-but-coded symbols)
             let mut syms = used_d.clone();
@@ -1866,6 +1885,53 @@ pub fn e2_zlib_lookalikes(ctx: &Ctx, name: &str, st: &mut Local, f: Sink) {
     e.exhaustive = true;
 }
 
+/// E4over: one reference whose distance is the number of bytes produced so far, one less, one more (invalid) and two
+/// more (invalid), for produced counts at the 8 / 12 / 15 / 16 bit boundaries
+pub fn e4_overreach(ctx: &Ctx, name: &str, st: &mut Local, f: Sink) {
+    if !ctx.engine_on(name) {
+        return;
+    }
+    let ns: [usize; 17] = [1, 2, 3, 4, 255, 256, 257, 4095, 4096, 4097, 32765, 32766, 32767, 32768, 32769, 40_000, 65_535];
+    let noise = text_family(4, 65_536);
+    let mut idx = 0u64;
+    for &n in &ns {
+        for delta in [-1i64, 0, 1, 2] {
+            for len in [3u16, 258] {
+                let d = n as i64 + delta;
+                if !(1..=32768).contains(&d) {
+                    continue;
+                }
+                let i = idx;
+                idx += 1;
+                if ctx.sel.mine(i) {
+                    let e = st.eng(name);
+                    e.states += 1;
+                    e.transitions += 1;
+                    e.nontrivial += 1;
+                }
+                if !ctx.take(name, i) {
+                    continue;
+                }
+                // n bytes produced: a stored block of n - 1 bytes and one literal
+                let s = Stream {
+                    blocks: vec![
+                        Block::Stored { data: noise[..n - 1].to_vec(), pad: 0 },
+                        Block::Fixed { toks: vec![Tok::Lit(b'q'), Tok::Ref { len, dist: d as u16, irr: false }, Tok::Lit(b'z')] },
+                    ],
+                    final_pad: 0,
+                };
+                let bytes = serialise(&s);
+                let valid = d <= n as i64;
+                let case = StreamCase { stream_len: bytes.len(), plain: if valid { Some(plaintext(&s)) } else { None }, bytes, descr: format!("{} bytes produced, then a reference len {} dist {} ({})", n, len, d, if valid { "valid" } else { "reaches before the start: invalid" }) };
+                deliver(ctx, name, st, i, case, f);
+            }
+        }
+    }
+    let e = st.eng(name);
+    e.bound = format!("produced counts {:?} x distance = produced - 1, produced, produced + 1, produced + 2 (capped at 32768) x len {{3, 258}}", ns);
+    e.exhaustive = true;
+}
+
 /// E4run: one reference at distance d into a long periodic run (period 1, 2 or 3): every earlier position of
 /// the run is a hash-chain candidate, so the chain depth needed to find the reference grows with d
 pub fn e4_runs(ctx: &Ctx, name: &str, st: &mut Local, f: Sink) {
@@ -1984,6 +2050,20 @@ pub fn e2_crossblock_sel(ctx: &Ctx, name: &str, st: &mut Local, f: Sink, light: 
         t.extend(std::iter::repeat(r(4, 1)).take(7));
         cases.push(("dynamic block with 65536 x (3,1), 300 x (4,2), 100 x (5,3)".into(), vec![Block::Dyn { hdr: default_header(&t), toks: t }]));
     }
+    // very long stored blocks before and after a block with one near reference (small estimated window, positions
+    // jumping by up to 65535 between dictionary updates)
+    for (a, b) in [(40_000usize, 65_535usize), (65_535, 65_535), (1000, 65_535), (20_000, 60_000), (65_535, 1)] {
+        let sa = text_family(4, a);
+        let sb = text_family(4, b);
+        cases.push((
+            format!("stored({}) + fixed block with a (3,5) reference + stored({})", a, b),
+            vec![
+                Block::Stored { data: sa, pad: 0 },
+                Block::Fixed { toks: vec![Tok::Lit(b'a'), Tok::Lit(b'b'), Tok::Lit(b'c'), Tok::Lit(b'd'), Tok::Lit(b'e'), r(3, 5)] },
+                Block::Stored { data: sb, pad: 0 },
+            ],
+        ));
+    }
     // more than 65535 blocks in one stream (16-bit block counters, per-stream block limits)
     {
         for total in [65_535usize, 65_536, 65_537] {
@@ -2024,7 +2104,7 @@ pub fn e2_crossblock_sel(ctx: &Ctx, name: &str, st: &mut Local, f: Sink, light: 
         deliver(ctx, name, st, i, case, f);
     }
     let e = st.eng(name);
-    e.bound = if light { format!("the first {} of: ", ncases) } else { String::new() } + "7 single-block streams with more than 65535 occurrences of one symbol (counts wrapping to 0, 3 and 5 next to mid-sized counts); 5 streams with 65535 .. 66001 blocks; 8 multi-block streams: a stored block (text / noise) followed by a fixed or dynamic block whose references reach into the stored bytes, with and without a leading huffman block";
+    e.bound = if light { format!("the first {} of: ", ncases) } else { String::new() } + "7 single-block streams with more than 65535 occurrences of one symbol (counts wrapping to 0, 3 and 5 next to mid-sized counts); 5 streams with 65535 .. 66001 blocks; 5 streams with stored blocks of up to 65535 bytes around a near reference; 8 multi-block streams: a stored block (text / noise) followed by a fixed or dynamic block whose references reach into the stored bytes, with and without a leading huffman block";
     e.exhaustive = true;
 }
 
